@@ -1222,6 +1222,10 @@ func (r *Resource) TypeMatching(other *Resource) uint64 {
 	if r == nil || other == nil {
 		return 0
 	}
+	// no types defined nothing can match: prevents divide by zero
+	if len(r.Resources) == 0 {
+		return 0
+	}
 	matchingResTypes := 0
 	for k := range other.Resources {
 		if _, ok := r.Resources[k]; ok {
